@@ -164,7 +164,7 @@ func rewriteDigest(img []byte, md bool) ([]byte, error) {
 }
 
 var classes = []string{"none", "flip_covered", "flip_covered", "flip_any", "transplant", "flip+digest_rewrite", "flip+digest_rewrite", "flip+digest_rewrite+md",
-	"transplant+digest_rewrite", "blob_mutation", "blob_mutation", "forged_resign"}
+	"transplant+digest_rewrite", "blob_mutation", "blob_mutation", "forged_resign", "foreign_signer_splice"}
 
 func genCase(t *rapid.T) Case {
 	img, signer, base := signedBase(t)
@@ -248,6 +248,46 @@ func genCase(t *rapid.T) Case {
 			}
 		}
 		out, err = acode.WithTable(img, acode.BuildTable(blobs))
+	case "foreign_signer_splice":
+		// the attacker changes the image, signs the result properly with an own key, and adds the victim's
+		// genuine SignerInfo (taken from the original signature) beside the own one
+		tampered, _, cerr := acode.Content(flip(img, true))
+		victimEntries, _, terr := acode.Table(img)
+		if cerr != nil || terr != nil || len(victimEntries) == 0 {
+			err = fmt.Errorf("no table")
+			break
+		}
+		bare, werr := acode.WithTable(tampered, nil)
+		if werr != nil {
+			err = werr
+			break
+		}
+		abin, perr := authenticode.Parse(bytes.NewReader(bare))
+		if perr != nil {
+			err = perr
+			break
+		}
+		attacker := gen.FixedIdents()[5]
+		if _, serr := abin.Sign(attacker.Priv(), attacker.Cert); serr != nil {
+			err = serr
+			break
+		}
+		out = abin.Bytes()
+		vsd, perr := cms.Parse(victimEntries[len(victimEntries)-1].Blob)
+		if perr != nil || len(vsd.Signers) == 0 {
+			err = fmt.Errorf("victim blob")
+			break
+		}
+		victimSigner := vsd.Signers[0].Node.Clone()
+		first := rapid.Bool().Draw(t, "victimfirst")
+		out, err = editBlob(out, 0, func(sd *cms.SD) error {
+			if first {
+				sd.SignerSet.Children = append([]*der.Node{victimSigner}, sd.SignerSet.Children...)
+			} else {
+				sd.SignerSet.Children = append(sd.SignerSet.Children, victimSigner)
+			}
+			return nil
+		})
 	case "forged_resign":
 		// tamper, make the blob consistent again (digest + messageDigest) and re-sign the attributes with another key,
 		// keeping the victim's issuer and serial
